@@ -397,10 +397,14 @@ def correspondence_tape(rep: Report, drv: Driver, seed: int, count: int) -> None
             rep.fail(f"double_krylov raised {rec.raised}", info)
             continue
         for m in structural_checks(rec, st, gr):
-            rep.broke(f"correspondence double_krylov (bookkeeping): {m}; input={json.dumps(info)}")
+            rep.count("dk_bookkeeping_disagreements")
+            if rep.extra["dk_bookkeeping_disagreements"] <= 6:
+                rep.broke(f"correspondence double_krylov (bookkeeping): {m}; input={json.dumps(info)}")
         line, problem = tape_line(rec, c["tol"], maxdim)
         if problem:
-            rep.broke(f"correspondence double_krylov: {problem}; input={json.dumps(info)}")
+            rep.count("dk_tape_unparsable")
+            if rep.extra["dk_tape_unparsable"] <= 4:
+                rep.broke(f"correspondence double_krylov: {problem}; input={json.dumps(info)}")
             continue
         exp = expected_reply(rec)
         lines.append(line); expect.append(exp); meta.append(info)
